@@ -180,6 +180,48 @@ def https_proxy_config_arg(n_pos: int, n_kw: int) -> bool:
     return fin(ok)
 
 
+def _harden(idx: int, style: int, args: int, decoy: int) -> bool:
+    from harness import hardenfam
+    from vlib.core import known_active
+
+    entry = hardenfam.TABLE[idx]
+    verdict = hardenfam.check(entry, style, args, decoy)
+    if verdict is not None and entry[0] == "use-defusedxml" and style % 4 == 0 and decoy % 3 == 1 and known_active("C16/local-import-alias-shadowing-a-dotted-module"):
+        return True  # recorded known finding (see known_findings.json)
+    return verdict is None
+
+
+def harden_defusedxml(style: int, args: int, decoy: int) -> bool:
+    """use-defusedxml, complete real pipeline, on a module whose import style (import M / import M as al / from M
+    import F / from M import F as G), argument list and surroundings (nothing, a function that re-binds the same
+    spelling to ANOTHER import and calls it, an unrelated call with the same arguments) are symbolic: the output
+    parses, every argument of the hardened call is kept in order, other statements are unchanged, the safe API appears.
+    post: _
+    """
+    return fin(_harden(0, style, args, decoy))
+
+
+def harden_pickle(style: int, args: int, decoy: int) -> bool:
+    """harden-pickle-load on the same family.
+    post: _
+    """
+    return fin(_harden(1, style, args, decoy))
+
+
+def harden_https(style: int, args: int, decoy: int) -> bool:
+    """https-connection on the same family.
+    post: _
+    """
+    return fin(_harden(2, style, args, decoy))
+
+
+def harden_shell_false(style: int, args: int, decoy: int) -> bool:
+    """subprocess-shell-false on the same family (documented argument edit: shell=True -> shell=False).
+    post: _
+    """
+    return fin(_harden(3, style, args, decoy))
+
+
 def planted_drop_arg(spec: List[Tuple[int, int]]) -> bool:
     """Self-test: a replace that drops an unrelated keyword argument must be refuted.
     pre: len(spec) <= 2
@@ -200,6 +242,8 @@ def warmup():
     cookie_args(False, False, False, False)
     https_proxy_config_arg(10, 1)
     https_proxy_config_arg(3, 2)
+    for _i in range(4):
+        _harden(_i, 2, 1, 1)
 
 
 SPEC = {
@@ -211,6 +255,7 @@ SPEC = {
         "codemodder.codemods.libcst_transformer._match_with_existing_arg",
         "SecureCookieMixin._choose_new_args",
         "HTTPSConnectionModifier.updated_args / count_positional_args",
+        "the complete real pipelines of use-defusedxml, harden-pickle-load, https-connection, subprocess-shell-false (ImportedCallModifier / NameResolutionMixin / import add-remove) on selector-built modules",
     ],
     "bounds": {
         "quick": "calls with <= 3 arguments (thorough 4): per argument keyword selector {positional, verify, timeout, other} and star / '=' spacing selector, libcst-valid orderings without repeated keywords; 1-2 NewArgs with symbolic add_if_missing",
@@ -221,12 +266,16 @@ SPEC = {
         "a call does not repeat a keyword (invalid Python)",
     ],
     "stubs": ["self (object carrying only make_new_arg)", "cst.parse_expression memoisation"],
-    "outside": ["callee / import swap through ImportedCallModifier and NameResolutionMixin (needs scope metadata)", "preservation of the rest of the file", "HardenPyyaml / jwt option surgery"],
+    "outside": ["hardening codemods other than the four in the whole-pipeline family and the kernels above (semgrep-detected ones need the absent detector)", "HardenPyyaml / jwt option surgery"],
     "xh": [
         Xh("replace_args_only_named", 400, 1200),
         Xh("add_arg_and_targets", 200, 600),
         Xh("cookie_args", 100, 200),
         Xh("https_proxy_config_arg", 150, 300),
+        Xh("harden_defusedxml", 200, 400),
+        Xh("harden_pickle", 200, 400),
+        Xh("harden_https", 200, 400),
+        Xh("harden_shell_false", 200, 400),
         Xh("planted_drop_arg", 60, 120, twin=False, expect="refuted"),
     ],
 }
